@@ -117,14 +117,13 @@ func builtinMathMax(call FunctionCall) Value {
 	case 1:
 		return float64Value(call.ArgumentList[0].float64())
 	}
+	// ToNumber is applied to every argument (15.8.2), also after a NaN.
 	result := call.ArgumentList[0].float64()
-	if math.IsNaN(result) {
-		return NaNValue()
-	}
 	for _, value := range call.ArgumentList[1:] {
 		value := value.float64()
-		if math.IsNaN(value) {
-			return NaNValue()
+		if math.IsNaN(value) || math.IsNaN(result) {
+			result = math.NaN()
+			continue
 		}
 		result = math.Max(result, value)
 	}
@@ -138,14 +137,13 @@ func builtinMathMin(call FunctionCall) Value {
 	case 1:
 		return float64Value(call.ArgumentList[0].float64())
 	}
+	// ToNumber is applied to every argument (15.8.2), also after a NaN.
 	result := call.ArgumentList[0].float64()
-	if math.IsNaN(result) {
-		return NaNValue()
-	}
 	for _, value := range call.ArgumentList[1:] {
 		value := value.float64()
-		if math.IsNaN(value) {
-			return NaNValue()
+		if math.IsNaN(value) || math.IsNaN(result) {
+			result = math.NaN()
+			continue
 		}
 		result = math.Min(result, value)
 	}
